@@ -20,14 +20,20 @@
 (*   proof inst s t p               Prove(s): targets t, proof hashes p    *)
 (*   upd   d k prev td ndel nadd    UpdateData of Stump.Update for block   *)
 (*                                   (d, k) - logged BEFORE the mod event  *)
+(*   hold  s t p lossy              what the light client holds: leaves s  *)
+(*                                   with targets t and proof hashes p     *)
+(* The mod event also carries rem, the slots a light client asked to       *)
+(* remember; the specification follows what that client must hold, as in   *)
+(* LightClient.tla: held' = (held \ d) \cup rem, and after an undo what it *)
+(* held of the leaves that existed before the undone block.                *)
 (* An event that does not match is recorded in `bad' and validation goes   *)
 (* on (the abstract state follows the logged actions, not the             *)
 (* observations), so one run reports every deviating event.                *)
 (***************************************************************************)
 EXTENDS Forest, Json, TLCExt
 
-VARIABLES l, n, live, stack, bad
-tvars == <<l, n, live, stack, bad>>
+VARIABLES l, n, live, held, stack, bad
+tvars == <<l, n, live, held, stack, bad>>
 
 TraceLog == ndJsonDeserialize("trace.ndjson")
 
@@ -60,8 +66,20 @@ UpdOK(e) ==
      /\ e.ndel = [i \in 1..Len(u.ndel) |-> <<u.ndel[i][1].row, u.ndel[i][1].idx, u.ndel[i][2]>>]
      /\ e.nadd = [i \in 1..Len(u.nadd) |-> <<u.nadd[i][1].row, u.nadd[i][1].idx, u.nadd[i][2]>>]
 
+\* the light client holds exactly what it must (after undoing a block that
+\* overwrote an empty root - known finding C08-F1 - at most that), each leaf
+\* with its true position, and the canonical proof of what it holds
+HoldOK(e) ==
+  /\ \A i \in 1..Len(e.s) : e.s[i] \in held
+  /\ (~e.lossy => SetOf(e.s) = held)
+  /\ Len(e.s) = Cardinality(SetOf(e.s))
+  /\ LET cp == CanonProof(n, live, e.s) IN
+     /\ e.t = [i \in 1..Len(cp.t) |-> JP(cp.t[i])]
+     /\ e.p = cp.p
+
 Check(e) ==
   CASE e.ev = "roots" -> RootsOK(e)
+    [] e.ev = "hold"  -> HoldOK(e)
     [] e.ev = "pos"   -> PosOK(e)
     [] e.ev = "proof" -> ProofOK(e)
     [] e.ev = "upd"   -> UpdOK(e)
@@ -69,20 +87,22 @@ Check(e) ==
     [] e.ev = "undo"  -> stack # <<>>
     [] OTHER          -> TRUE
 
-TraceInit == l = 1 /\ n = 0 /\ live = {} /\ stack = <<>> /\ bad = {} /\ TLCSet(1, 1)
+TraceInit == l = 1 /\ n = 0 /\ live = {} /\ held = {} /\ stack = <<>> /\ bad = {} /\ TLCSet(1, 1)
 
 TraceNext ==
   /\ l <= Len(TraceLog)
   /\ LET e == TraceLog[l] IN
      /\ bad' = IF Check(e) THEN bad ELSE bad \cup {l}
-     /\ CASE e.ev = "reset" -> n' = 0 /\ live' = {} /\ stack' = <<>>
+     /\ CASE e.ev = "reset" -> n' = 0 /\ live' = {} /\ held' = {} /\ stack' = <<>>
           [] e.ev = "mod"   -> /\ n' = n + e.k
                                /\ live' = (live \ SetOf(e.d)) \cup (n..(n + e.k - 1))
+                               /\ held' = (held \ SetOf(e.d)) \cup SetOf(e.rem)
                                /\ stack' = <<[n |-> n, live |-> live]>> \o stack
           [] e.ev = "undo" /\ stack # <<>> ->
                                /\ n' = Head(stack).n /\ live' = Head(stack).live
+                               /\ held' = {x \in held : x < Head(stack).n}
                                /\ stack' = Tail(stack)
-          [] OTHER          -> UNCHANGED <<n, live, stack>>
+          [] OTHER          -> UNCHANGED <<n, live, held, stack>>
   /\ l' = l + 1
 
 TraceSpec == TraceInit /\ [][TraceNext]_tvars
